@@ -99,6 +99,9 @@ func runProperty(repo, prop string, cfg BuildConfig, timeoutS int, scratch strin
 		c := c
 		switch c.Kind {
 		case "func", "closure", "lemma":
+			if c.Flags["assumed"] {
+				continue // used at call sites only; listed in the trusted base wherever it is used
+			}
 			wg.Add(1)
 			go func() {
 				defer wg.Done()
